@@ -76,7 +76,7 @@ KNOWN_SITE = "positive-price-impact>fees"
 
 
 def plan(tier, seed):
-    n = 78 if tier == "quick" else 7020
+    n = 500 if tier == "quick" else 7020
     return [{"shard": i, "cases": n} for i in range(NSHARDS)]
 
 
